@@ -202,25 +202,36 @@ def generate(repo):
         vn = ctx.translate(cls, 'validate_native', 'vn', 'val')
         vnn = ctx.translate(cls, 'validate_native', 'vn', 'none')
         vs = ctx.translate(cls, 'validate_string', 'vs', 'val')
-        names.append((cn, cls, vn, vnn, vs))
+        vsn = ctx.translate(cls, 'validate_string', 'vs', 'none')
+        names.append((cn, cls, vn, vnn, vs, vsn))
     out.extend(ctx.defs)
     out.append('')
-    for cn, cls, vn, vnn, vs in names:
+    for cn, cls, vn, vnn, vs, vsn in names:
         out.append('Definition attrs_%s : num_attrs :=\n  %s.' % (cn, attrs_record(cls)))
         out.append('Definition validate_native_%s := %s.' % (cn, vn))
         out.append('Definition validate_native_none_%s := %s.' % (cn, vnn))
         out.append('Definition validate_string_%s := %s.' % (cn, vs))
+        out.append('Definition validate_string_none_%s := %s.' % (cn, vsn))
         out.append('Definition type_name_%s : list Z := %s.' % (
             cn, '[' + '; '.join(str(ord(c)) for c in cls.__type_name__) + ']'))
         out.append('')
     # the table the fixed-width theorems quantify over: (signed, bits, attrs, validate_native)
     rows = []
-    for cn, cls, vn, vnn, vs in names:
+    irows = []
+    for cn, cls, vn, vnn, vs, vsn in names:
         if cn[-1].isdigit():
             bits = int(''.join(ch for ch in cn if ch.isdigit()))
             signed = not cn.startswith('Unsigned')
             rows.append('(%s, %d, attrs_%s, validate_native_%s)' % (
                 'true' if signed else 'false', bits, cn, cn))
+            irows.append('(%s, %d, mk_int_type attrs_%s validate_native_%s validate_native_none_%s '
+                         'validate_string_%s validate_string_none_%s)' % (
+                'true' if signed else 'false', bits, cn, cn, cn, cn, cn))
     out.append('Definition bounded_int_types : list (bool * Z * num_attrs * (num_attrs -> Z -> bool)) :=\n  [ %s ].'
                % ';\n    '.join(rows))
+    out.append('(* the same classes with all four generated validation functions *)')
+    out.append('Definition bounded_int_classes : list (bool * Z * int_type) :=\n  [ %s ].' % ';\n    '.join(irows))
+    for cn in ('Integer', 'UnsignedInteger'):
+        out.append('Definition class_%s : int_type := mk_int_type attrs_%s validate_native_%s validate_native_none_%s '
+                   'validate_string_%s validate_string_none_%s.' % (cn, cn, cn, cn, cn, cn))
     return {'NumTypes.v': '\n'.join(out) + '\n'}
